@@ -252,3 +252,75 @@ fn kd10_set_header() {
     core::mem::forget(stream);
     core::mem::forget(state);
 }
+
+/// stand-in for adler32 that remembers *which* slice was checksummed (start value, length, address)
+pub(crate) fn stub_adler_ident(start: u32, data: &[u8]) -> u32 {
+    start ^ (data.len() as u32).wrapping_mul(0x9e37_79b1) ^ (data.as_ptr() as usize as u32).wrapping_mul(0x85eb_ca6b)
+}
+/// contract stub: the window loader consumes all the input it is given (window contents are KD9's subject)
+pub(crate) fn stub_fill_window_consume(stream: &mut DeflateStream) {
+    stream.next_in = stream.next_in.wrapping_add(stream.avail_in as usize);
+    stream.avail_in = 0;
+    stream.state.lookahead = 0;
+}
+
+/// deflateSetDictionary: state checks, DICTID = checksum of the *whole* dictionary the caller passed (also when it is
+/// longer than the window and only its tail is loaded), caller's next_in/avail_in and wrap restored (C13, C05, C16).
+#[kani::proof]
+#[kani::unwind(4)]
+#[kani::stub(core::fmt::write, stub_fmt_write)]
+#[kani::stub(core::panicking::panic_nounwind, stub_pn)]
+#[kani::stub(core::panicking::panic_nounwind_fmt, stub_pnf)]
+#[kani::stub(<[u16]>::fill, stub_fill_zero)]
+#[kani::stub(crate::adler32::adler32, stub_adler_ident)]
+#[kani::stub(crate::deflate::fill_window, stub_fill_window_consume)]
+fn kd10_set_dictionary_protocol() {
+    let mut w = [0u8; 2 << WB];
+    let mut p = [0u16; 1 << WB];
+    let mut h = [0u16; HASH_SIZE];
+    let mut pe = [MaybeUninit::new(0u8); 4 * LB];
+    let mut sy = [0u8; 3 * LB];
+    let wrap: i8 = kani::any();
+    kani::assume(wrap >= 0 && wrap <= 2);
+    let mut state = typed_state(&mut w, &mut p, &mut h, &mut pe, &mut sy, WB, LB, 6, wrap, Strategy::Default);
+    state.window_size = 2 << WB;
+    let busy: bool = kani::any();
+    state.status = if busy { Status::Busy } else if wrap == 2 { Status::GZip } else { Status::Init };
+    let la: usize = kani::any();
+    kani::assume(la <= 2);
+    state.lookahead = la;
+    state.strstart = kani::any();
+    kani::assume(state.strstart <= 100);
+    let mut stream = typed_stream(unsafe { &mut *(&mut state as *mut State) });
+    let user_in = [0u8; 4];
+    stream.next_in = user_in.as_ptr() as *mut u8;
+    stream.avail_in = 3;
+    stream.adler = 1;
+    // dictionary of any length up to a bit more than twice the window (window = 512 bytes, capacity 1024)
+    let dict = [0u8; 1100];
+    let dl: usize = kani::any();
+    kani::assume(dl <= 1100);
+    let rc = set_dictionary(&mut stream, &dict[..dl]);
+    let refused = wrap == 2 || (wrap == 1 && busy) || la != 0;
+    if refused {
+        assert!(rc == ReturnCode::StreamError);
+        assert!(stream.adler == 1 && stream.state.wrap == wrap);
+    } else {
+        assert!(rc == ReturnCode::Ok);
+        if wrap == 1 {
+            // the identifier announced in the zlib header is the checksum of the dictionary as passed by the caller
+            assert!(stream.adler as u32 == crate::adler32::adler32(1, &dict[..dl]), "DICTID covers the whole dictionary");
+        } else {
+            assert!(stream.adler == 1);
+        }
+        assert!(stream.state.wrap == wrap, "wrap restored");
+        assert!(stream.state.lookahead == 0 && stream.state.insert == 0 && !stream.state.match_available);
+        assert!(stream.state.block_start == stream.state.strstart as isize);
+    }
+    assert!(stream.next_in as usize == user_in.as_ptr() as usize && stream.avail_in == 3, "caller's input cursor restored");
+    kani::cover!(rc == ReturnCode::Ok && wrap == 1 && dl == 1100);
+    kani::cover!(rc == ReturnCode::Ok && wrap == 0 && dl >= 1024);
+    kani::cover!(rc == ReturnCode::StreamError && wrap == 1);
+    core::mem::forget(stream);
+    core::mem::forget(state);
+}
